@@ -25,6 +25,26 @@ def same_node(event_node, n):
                                                                    event_node.get("line") == n.get("line")))
 
 
+def real_site(prog, f, node):
+    """(function, node) in whose own tree and flow graph `node` lives: f itself, or - when node belongs to a helper body
+    grafted onto a call in f - the helper and the node of its own tree."""
+    if "oid" not in node:
+        return f, node
+    host = None
+    for c in walk(f.body):
+        if c.get("k") == "CallExpr" and "inl" in c and any(x is node or x.get("id") == node["id"] for x in walk(c["inl"])):
+            host = c          # keeps the innermost: walk visits outer calls first
+    if host is None:
+        return f, node
+    g = prog.helper(host.get("callee"), f.unit)
+    if g is None:
+        return f, node
+    for x in walk(g.body):
+        if x.get("id") == node["oid"] and x.get("k") == node.get("k") and x.get("line") == node.get("line"):
+            return g, x
+    return f, node
+
+
 def kids(n):
     """All syntactic children of a node, in source order."""
     out = []
